@@ -102,6 +102,8 @@ class Run:
         self.loop.settle()
         t.cancel()
         self.loop.settle()
+        # ... and time passes before the next chunk arrives (a slow peer): 1.5 s, then 3 s on the virtual clock
+        self.loop.run_until(self.loop.time() + (1.5 if len(self.delivered) % 2 == 0 else 3.0))
 
     def eof(self):
         self.reader.feed_eof()
